@@ -112,6 +112,42 @@ func checkC11(c *Ctx) {
 			add("dict-equality-mixed", fmt.Sprintf("%s/op%d/%d", strings.Join(used, ","), oi, i), pre+op+"\n", nil)
 		}
 	}
+	// a3. the same entries written in another order are the same contents: the left dictionary of
+	// a comparison is rebuilt in several insertion orders, the answer (a value or an error) must
+	// be the same for all of them
+	for i := 0; i < c.Pick(40, 400); i++ {
+		n := 3 + rng.Intn(3)
+		la, lb := []string{}, []string{}
+		for k := 0; k < n; k++ {
+			rel := rels[rng.Intn(len(rels))]
+			if k == i%n {
+				rel = "obj"
+			}
+			if k == (i+1)%n {
+				rel = []string{"ne", "mismatch", "list-ne", "dict-ne", "null-vs-num"}[rng.Intn(5)]
+			}
+			va, vb := relVals(rel, k)
+			la = append(la, fmt.Sprintf("“键%c” = %s", nameGlyphs[k], va))
+			lb = append(lb, fmt.Sprintf("“键%c” = %s", nameGlyphs[k], vb))
+		}
+		perms := [][]string{append([]string{}, la...)}
+		rev := []string{}
+		for k := len(la) - 1; k >= 0; k-- {
+			rev = append(rev, la[k])
+		}
+		perms = append(perms, rev)
+		for extra := 0; extra < 2; extra++ {
+			sh := append([]string{}, la...)
+			rng.Shuffle(len(sh), func(x, y int) { sh[x], sh[y] = sh[y], sh[x] })
+			perms = append(perms, sh)
+		}
+		for oi, op := range []string{"输出 甲 为 乙", "输出 甲 不为 乙", "输出 以【1，甲】（包含：乙）", "输出 以【1，甲】（寻找：乙）", "输出 乙 为 甲"} {
+			for pi, pm := range perms {
+				pre := fmt.Sprintf("定义物类：\n\t其数 = 1\n令物 = （新建物类）\n令甲 = 【%s】\n令乙 = 【%s】\n", strings.Join(pm, "，"), strings.Join(lb, "，"))
+				add("dict-equality-order", fmt.Sprintf("g%d/op%d#perm%d", i, oi, pi), pre+op+"\n", nil)
+			}
+		}
+	}
 	// b. parsed JSON
 	for i := 0; i < c.Pick(40, 600); i++ {
 		v := c19Dict(rng, 2)
@@ -208,8 +244,26 @@ func checkC11(c *Ctx) {
 	}
 	minCanary := 1 << 30
 	maxCanary := 0
+	orderOutcomes := map[string]map[string]string{} // group -> outcome -> one program showing it
 	c.runBatches(reqs, 6, func(i int, req *Req, resp *Resp) {
 		cs := cases[i]
+		if cs.fam == "dict-equality-order" && (resp.Kind == "value" || resp.Kind == "error") {
+			o := resp.Kind
+			if resp.Kind == "value" && resp.Val != nil {
+				o = resp.Val.String()
+			} else if resp.Err != nil {
+				o = fmt.Sprintf("error %d", resp.Err.Code)
+			}
+			g := strings.SplitN(cs.name, "#", 2)[0]
+			c.mu.Lock()
+			if orderOutcomes[g] == nil {
+				orderOutcomes[g] = map[string]string{}
+			}
+			if _, seen := orderOutcomes[g][o]; !seen {
+				orderOutcomes[g][o] = RunesToString(req.Src)
+			}
+			c.mu.Unlock()
+		}
 		c.Count("evaluations", int64(reps))
 		c.Count("programs", 1)
 		c.Nontrivial(cs.fam + "|" + cs.name)
@@ -239,6 +293,15 @@ func checkC11(c *Ctx) {
 			c.Sample(map[string]interface{}{"family": cs.fam, "program": clip(src, 300), "repetitions": reps, "distinct_outcomes": resp.RepDistinct, "outcome": resp.Kind})
 		}
 	})
+	for _, g := range SortedKeys(orderOutcomes) {
+		if len(orderOutcomes[g]) > 1 {
+			desc := []string{}
+			for _, o := range SortedKeys(orderOutcomes[g]) {
+				desc = append(desc, fmt.Sprintf("outcome %s for:\n%s", o, orderOutcomes[g][o]))
+			}
+			c.Violation("order:dict-equality:"+g, fmt.Sprintf("dict-equality-order/%s: the same two dictionaries compare differently when the entries of the left one are written in another order:\n%s", g, clip(strings.Join(desc, "\n"), 1500)), map[string]interface{}{"programs": orderOutcomes[g]})
+		}
+	}
 	// g. request headers / query parameters through the real HTTP handler
 	if bin, err := buildTool(c, "./srvharness", "srvharness", false); err != nil {
 		c.Inconclusive(err.Error())
